@@ -184,3 +184,7 @@ def norm_forest(forest):
             out.append({"name": n["tag"][0], "attrs": dict(n["attrs"]), "children": norm_forest(n["children"]),
                         "self_closed": void})
     return out
+
+
+def text_of_parsed(forest):
+    return "".join(n["text"] if "text" in n else text_of_parsed(n["children"]) for n in forest)
